@@ -23,7 +23,9 @@ func (g *Gen) clBase(tag string) (*Plan, *ClientPlan) {
 func apiBound(p *Plan, cp *ClientPlan, a *apiCall) int64 {
 	rd := cp.RetryDelayMs * nsMs
 	n := int64(cp.RetryCount) + 1
-	eps := 50 * nsMs
+	// 50 ms of latency/jitter + the client's receive-loop poll interval (1 s): a call that ends
+	// because the client terminates returns group.Wait(), which waits for the receive loop
+	eps := 50*nsMs + 1000*nsMs
 	switch a.op {
 	case "dial":
 		return eps
